@@ -207,3 +207,19 @@ def gen_cf(rnd, d, scope, loops, st):
     if r < 0.97:
         return ["djump", val()]
     return [rnd.choice(["assert", "assert_unreachable"]), val()]
+
+
+def coq_of_node_real(node):
+    """like coq_of_node, for IR of compiled contracts: bytes leaves (inside `data`) become leaves named like the opaque
+    assembly item that compile_ir emits for them (c15_asm.from_real naming)"""
+    if isinstance(node.value, bytes):
+        from vyper.evm.assembler.instructions import DATA_ITEM
+        from vlib import c15_asm
+        return f'(Var "{c15_asm.from_real([DATA_ITEM(node.value)])[0][1]}")'
+    if isinstance(node.value, int):
+        return f"(Lit {coqrun.hexlit(node.value)})"
+    if not isinstance(node.value, str) or '"' in node.value:
+        raise ValueError(f"unsupported IR value {node.value!r}")
+    if _is_var(node):
+        return f'(Var "{node.value}")'
+    return f'(Node "{node.value}" [{"; ".join(coq_of_node_real(a) for a in node.args)}])'
